@@ -221,6 +221,12 @@ class Opaque(object):
             return Opaque('scale', k=k, of=self)
         if hasattr(k, 'sym_load'):
             return Opaque('matmul', a=self, b=k)
+        try:
+            import numpy as _np
+            if isinstance(k, _np.ndarray) and k.ndim == 1:
+                return Opaque('matvec', a=self, b=list(k))
+        except ImportError:
+            pass
         return NotImplemented
     __rmul__ = __mul__
 
